@@ -29,6 +29,8 @@ func genC20(c *Ctx) {
 	c20GenEncFlags(c)
 	c20GenRGSW(c)
 	c20GenShapes(c)
+	c20GenUnequal(c)
+	c20GenManyDigits(c)
 	c20Gen32(c)
 	c20GenBlindRot(c)
 	c20GenHistory(c)
@@ -274,10 +276,18 @@ func c20ExtProd(c *Ctx, ps *c20PS, sk *rlwe.SecretKey, sInts []int64, ctIn *rlwe
 	} else {
 		oldPolys = inPolys
 	}
+	before := map[string]string{"rgsw": c20SnapRGSW(rg)}
+	if !inplace {
+		before["op0"] = c20SnapCt(ct)
+	}
 	res := Try(func() string {
 		eval.ExternalProduct(ct, rg, out)
 		return "ok"
 	})
+	after := map[string]string{"rgsw": c20SnapRGSW(rg)}
+	if !inplace {
+		after["op0"] = c20SnapCt(ct)
+	}
 	shape := c20Shape(rg)
 	fast := lp == -1 && lq == 0 && c20Acc32Fits(ps.Q[0], shape[0])
 	path := "single"
@@ -290,9 +300,19 @@ func c20ExtProd(c *Ctx, ps *c20PS, sk *rlwe.SecretKey, sInts []int64, ctIn *rlwe
 	c.Count(fmt.Sprintf("extprod:inplace=%v", inplace))
 	c.Count(fmt.Sprintf("extprod:nQ=%d nP=%d", lq+1, lp+1))
 	c.Count(fmt.Sprintf("extprod:w=%d", w))
-	if res != "ok" {
-		c.Emit(fmt.Sprintf("extprod_panics %s", c20ParTokens(ps, lq, lp, w)), "panic")
-		return
+	{
+		d := ""
+		if res != "ok" {
+			d = fmt.Sprintf("ExternalProduct -> %s (shape %v inplace=%v)", res, shape, inplace)
+		}
+		c.Probe("extprod_no_panic", fmt.Sprintf("%s inplace=%d shape=%s tag=%s seed=%d line=%d", c20ParTokens(ps, lq, lp, w), c20B2i(inplace), IVec(shape), tag, c.Seed, c.N), "extprod-panic", d)
+		if res != "ok" {
+			return
+		}
+	}
+	c20Unchanged(c, "extprod_inputs_unchanged", fmt.Sprintf("%s inplace=%d seed=%d line=%d", c20ParTokens(ps, lq, lp, w), c20B2i(inplace), c.Seed, c.N), "extprod-input-mutated", before, after)
+	if path == "multiP" && inplace && !probesOnly() {
+		c20LazyTie(c, ps, eval, ctIn, rg)
 	}
 	_ = rq
 	// the 64-bit accumulator of the fast path: does it wrap on this input?
@@ -495,8 +515,20 @@ func c20Homomorphisms(c *Ctx, ps *c20PS, sk *rlwe.SecretKey, sInts []int64, rgA 
 	}
 	// ---- Add ----
 	sum := copyRGSW(rgA)
-	rgsw.AddLazy(rgB, ringQP, sum)
-	rgsw.Reduce(sum, ringQP, sum)
+	{
+		b := map[string]string{"op": c20SnapRGSW(rgB)}
+		rgsw.AddLazy(rgB, ringQP, sum)
+		c20Unchanged(c, "rgsw_inputs_unchanged", par+" fn=AddLazy", "rgsw-input-mutated", b, map[string]string{"op": c20SnapRGSW(rgB)})
+		// Reduce out of place leaves its input alone and equals Reduce in place
+		lazy := copyRGSW(sum)
+		red := copyRGSW(sum)
+		b = map[string]string{"ctIn": c20SnapRGSW(lazy)}
+		rgsw.Reduce(lazy, ringQP, red)
+		a := map[string]string{"ctIn": c20SnapRGSW(lazy)}
+		rgsw.Reduce(sum, ringQP, sum)
+		b["outOfPlace=inPlace"], a["outOfPlace=inPlace"] = c20SnapRGSW(sum), c20SnapRGSW(red)
+		c20Unchanged(c, "rgsw_inputs_unchanged", par+" fn=Reduce", "rgsw-input-mutated", b, a)
+	}
 	if !probesOnly() {
 		c.Emit(fmt.Sprintf("rgsw_add %s %s %s", par, c20RGSWArgs("a", ps.rgswPolys(rgA)), c20RGSWArgs("b", ps.rgswPolys(rgB))), c20RGSWOut(ps.rgswPolys(sum)))
 	}
@@ -513,6 +545,12 @@ func c20Homomorphisms(c *Ctx, ps *c20PS, sk *rlwe.SecretKey, sInts []int64, rgA 
 	}
 	xm1 := c20XPowMinusOne(ps, lq, lp, alpha)
 	prod := copyRGSW(rgA)
+	{
+		b := map[string]string{"ctIn": c20SnapRGSW(rgA), "powXMinusOne": c20SnapQP(xm1)}
+		rgsw.MulByXPowAlphaMinusOneLazy(rgA, xm1, ringQP, prod)
+		c20Unchanged(c, "rgsw_inputs_unchanged", par+" fn=MulByXPowAlphaMinusOneLazy", "rgsw-input-mutated", b, map[string]string{"ctIn": c20SnapRGSW(rgA), "powXMinusOne": c20SnapQP(xm1)})
+	}
+	prod = copyRGSW(rgA)
 	rgsw.MulByXPowAlphaMinusOneLazy(rgA, xm1, ringQP, prod)
 	rgsw.Reduce(prod, ringQP, prod)
 	if !probesOnly() {
@@ -523,6 +561,12 @@ func c20Homomorphisms(c *Ctx, ps *c20PS, sk *rlwe.SecretKey, sInts []int64, rgA 
 
 	// ---- out += in * (X^alpha - 1) ----
 	acc := copyRGSW(rgB)
+	{
+		b := map[string]string{"ctIn": c20SnapRGSW(rgA), "powXMinusOne": c20SnapQP(xm1)}
+		tmp := copyRGSW(rgB)
+		rgsw.MulByXPowAlphaMinusOneThenAddLazy(rgA, xm1, ringQP, tmp)
+		c20Unchanged(c, "rgsw_inputs_unchanged", par+" fn=MulByXPowAlphaMinusOneThenAddLazy", "rgsw-input-mutated", b, map[string]string{"ctIn": c20SnapRGSW(rgA), "powXMinusOne": c20SnapQP(xm1)})
+	}
 	rgsw.MulByXPowAlphaMinusOneThenAddLazy(rgA, xm1, ringQP, acc)
 	rgsw.Reduce(acc, ringQP, acc)
 	if !probesOnly() {
@@ -601,7 +645,10 @@ func c20HomProbe(c *Ctx, ps *c20PS, sk *rlwe.SecretKey, sInts []int64, rg *rgsw.
 	eval := rgsw.NewEvaluator(ps.params, nil)
 	fast := lp == -1 && lq == 0 && c20Acc32Fits(ps.Q[0], c20Shape(rg)[0])
 	wraps := fast && c20Fast32Wraps(ps, ct, rg)
-	eval.ExternalProduct(ct, rg, ct)
+	if res := Try(func() string { eval.ExternalProduct(ct, rg, ct); return "ok" }); res != "ok" {
+		c.Probe("extprod_no_panic", fmt.Sprintf("%s via=%s shape=%s seed=%d line=%d", par, name, IVec(c20Shape(rg)), c.Seed, c.N), "extprod-panic", "ExternalProduct -> "+res)
+		return
+	}
 	phaseOut := ps.phaseBig(ct, sk, lq)
 	Q := c20ProdBig(ps.Q[:lq+1])
 	noise := c20DistModQ(phaseOut, c20NegacyclicBig(phaseIn, gWant), Q)
